@@ -183,5 +183,6 @@ func pickFunc(ctx *flags.Context) error {
 		return ctx.Raise(fmt.Errorf("encountered error in scanner: %v", err))
 	}
 
+	d.Commit()
 	return nil
 }
